@@ -41,6 +41,8 @@ PROP = [  # (substring of the subject, property, what failed)
     ("PendingAsyncDependencies of cycle members", "C17", "a cycle above a module with top-level await never settled / ran in the wrong order / panicked"),
     ("module var bindings were not initialized", "C17", "an importer in a cycle reading an exported var before the exporter ran threw ReferenceError (spec: undefined)"),
     ("exponentiation with a NaN exponent", "C01", "`let e = NaN; 1 ** e` evaluated to 1 (spec: NaN)"),
+    ("VM division fast path returned +0", "C01", "`let a = 0, b = -1; 1 / (a / b)` in a function printed Infinity (div_fast returned integer 0 for 0 / -n)"),
+    ("inline cache remembered a slot that user code had invalidated", "C02", "`Object.defineProperty(P.prototype,'a',{get(){ delete P.prototype.a; return 1 },configurable:true}); rd(o); rd(o); rd(o)` panicked (index out of bounds): the slot was cached after the getter had deleted the property"),
     ("AST printer", "C19", None),
     ("Map/Set clear() under a live iterator", "C20", "`m.clear(); m.set(4,4); it.next()` on a running iterator reported done (spec/V8: 4) — deterministic deviation found by the C20 model refinement"),
     ("for_each_native looped forever", "C20", "JsMap/JsSet::for_each_native hung on a Map that had a deletion while an iterator was alive"),
